@@ -119,6 +119,9 @@ class Obj:
     def __repr__(self):
         return f"Obj({self.__dict__})"
 
+    def __bool__(self):
+        return bool(self.__dict__.get("_truth", True))
+
 
 class Interp:
     def __init__(self, ctx, module, call_hook: Optional[Callable] = None, max_depth=3, cls=None):
@@ -262,7 +265,7 @@ class Interp:
             r_ = self._classmethod_call(e, env, depth)
             if r_ is not UNKNOWN:
                 return r_
-        if isinstance(e, ast.Name) and isinstance(env.get(e.id), (Stream, Bound)):
+        if isinstance(e, ast.Name) and isinstance(env.get(e.id), (Stream, Bound, Obj)):
             return env[e.id]
         if isinstance(e, ast.Call) and isinstance(e.func, (ast.Name, ast.Attribute)) and not self._mentions_obj(e.func, env):
             callee = self.ctx.folder.eval(e.func, self.module, env=env)
@@ -335,6 +338,18 @@ class Interp:
                 except _struct.error:
                     raise _Raise("struct.error")
                 return list(r_) if False else r_
+        if isinstance(e, ast.Call) and ast.unparse(e.func) in ("datetime.datetime", "datetime.timedelta", "datetime", "timedelta"):
+            import datetime as _dt
+
+            args = [self.ev(a, env, depth) for a in e.args]
+            kw = {k.arg: self.ev(k.value, env, depth) for k in e.keywords if k.arg}
+            return getattr(_dt, ast.unparse(e.func).split(".")[-1])(*args, **kw)
+        if isinstance(e, ast.Call) and isinstance(e.func, ast.Attribute) and e.func.attr in ("strftime", "isoformat", "timestamp", "total_seconds"):
+            import datetime as _dt
+
+            recv_ = self.ev(e.func.value, env, depth)
+            if isinstance(recv_, (_dt.datetime, _dt.timedelta, _dt.date)):
+                return getattr(recv_, e.func.attr)(*[self.ev(a, env, depth) for a in e.args])
         if isinstance(e, ast.Call) and ast.unparse(e.func) in ("chain.from_iterable", "itertools.chain.from_iterable") and len(e.args) == 1:
             return _chain_from_iterable(self.ev(e.args[0], env, depth))
         if isinstance(e, ast.BinOp):
@@ -530,12 +545,30 @@ class Interp:
             rn = ast.unparse(recv)
             if "log" in rn.lower():
                 return
+            target = None
             if isinstance(recv, ast.Name) and recv.id in env and isinstance(env[recv.id], (list, dict, set)):
+                target = env[recv.id]
+            elif e.func.attr in ("append", "extend", "update", "add", "pop", "insert", "setdefault", "clear", "reverse", "sort", "remove", "discard"):
+                try:
+                    target = self.ev(recv, env, depth)
+                except _Unknown:
+                    target = None
+                if not isinstance(target, (list, dict, set)):
+                    target = None
+            if target is not None:
                 args = [self.ev(a, env, depth) for a in e.args]
                 m = e.func.attr
+                env = dict(env)
+                env["__target"] = target
+                recv = ast.Name(id="__target", ctx=ast.Load())
                 if m in ("append", "extend", "update", "add", "pop", "insert", "setdefault", "clear", "reverse", "sort", "remove", "discard"):
                     getattr(env[recv.id], m)(*args)
                     return
+        try:
+            self.ev(e, env, depth)  # a call whose value is discarded: evaluate it for its effects on witness objects
+            return
+        except _Unknown:
+            pass
         raise _Unknown(f"call for effect: {ast.unparse(e)[:60]}")
 
     def store(self, t, v, env, depth):
@@ -568,6 +601,12 @@ class Interp:
             env[t.value.id][k] = v
         elif isinstance(t, ast.Attribute) and isinstance(t.value, ast.Name) and isinstance(env.get(t.value.id), Obj):
             env[t.value.id].__dict__[t.attr] = v
+        elif isinstance(t, ast.Subscript):
+            # a store into a container reached through an expression (self._info["tasks"][name] = ...)
+            container = self.ev(t.value, env, depth)
+            if not isinstance(container, (dict, list)):
+                raise _Unknown(f"store target {ast.unparse(t)[:40]}")
+            container[self.ev(t.slice, env, depth)] = v
         else:
             raise _Unknown(f"store target {ast.unparse(t)[:40]}")
 
